@@ -194,13 +194,19 @@ async def to_async_iter(iterable: Iterable[T]) -> AYields[T]:
         return
 
     stopped = False  # Set if the consumer gives up early
+    # The error of the source is handed over as it is: the futures which
+    # bridge threads and loops replace some exceptions with copies
+    error: Optional[Exception] = None
 
     def _queue_elements() -> None:
+        nonlocal error
         try:
             for x in iterable:
                 if stopped:
                     break
                 put(x)
+        except Exception as e:
+            error = e
         finally:
             put(_DONE)
 
@@ -217,6 +223,8 @@ async def to_async_iter(iterable: Iterable[T]) -> AYields[T]:
         while (i := await q.get()) is not _DONE:
             yield i  # type: ignore
         await future  # Bubble any errors
+        if error is not None:
+            raise error
     finally:
         # If the consumer stopped early the thread may still be blocked
         # in the iterator: joining it would block the event loop. It
@@ -267,6 +275,7 @@ def to_sync_iter(iterable: AsyncIterable[T],
         loop = aio.new_event_loop()
 
     started = False
+    error: Optional[Exception] = None  # Handed over as it is, see above
 
     def _set_loop_and_queue_elements(_loop: Loop) -> None:
         try:
@@ -283,11 +292,13 @@ def to_sync_iter(iterable: AsyncIterable[T],
             raise
 
     async def _queue_elements() -> None:
-        nonlocal started
+        nonlocal started, error
         started = True
         try:
             async for x in iterable:
                 put(x)
+        except Exception as e:
+            error = e
         finally:
             put(_DONE)  # type: ignore
 
@@ -300,6 +311,8 @@ def to_sync_iter(iterable: AsyncIterable[T],
                 yield i
         finally:
             _future_result(future)
+            if error is not None:
+                raise error
 
 
 def _future_result(future: 'Future[T]') -> T:
